@@ -117,7 +117,12 @@ def observe(case):
     ua, ub = case["ua"], case["ub"]
     a, bb = Decimal(case["a"]), Decimal(case["b"])
     orc.update(b_in_a=bb)
-    if ua is not None and ub is not None and ua != ub:
+    pct = next((us for _, us in st["qmap"] if "%" in us), [])
+    if ua is not None and ub is not None and ua != ub and ua in pct and ub in pct:
+        # the percentages denote the same number (equal scale in the source's quantity table); compare_values hands them to
+        # pint as plain percent, so nothing is converted and nothing is rounded (fix 9e9a0269)
+        pass
+    elif ua is not None and ub is not None and ua != ub:
         try:
             qa, qb = U.ureg.Quantity(a, ua), U.ureg.Quantity(bb, ub)
             if qa.dimensionality != qb.dimensionality:
